@@ -15,8 +15,17 @@
 //        is written, round-robin, to <outprefix>.<k>.ndjson (k = 0..nshards-1); the first line of every shard file is
 //        {"subjects":[[bytes],...]}.  With onlyShard = k only that file is produced (the check runs one process per shard).
 //        Nothing is judged here: spec/Wildcard/WildcardTrace.tla is the oracle.
+//   wc seg <level 1|2> <nshards> <outprefix> <report.ndjson>      (lines round-robin to <outprefix>.seg.<k>.ndjson, header line to <outprefix>.seg.hdr.json;
+//        the check merges them into the pattern shard files)
+//        SegmentedStringMatcher: patterns of 1..3 clauses joined by '/' (clauses: *, literals, wildcards, classes, alternatives, a range,
+//        an escaped star; with and without a leading ~; plus variants with leading / trailing / doubled separators), both as a soft
+//        separator ("/") and as a hard one ("//"), against subjects of 0..4 tokens (plus variants with empty segments, leading and
+//        trailing separators).  First line {"subjects":[],"segsubjects":[[bytes],...]}; then one line per (pattern, separator kind):
+//        {"k":"s","p":[bytes],"hard":0|1,"st":SetPattern ok,"u":IsPatternUnique,"ng0","m0":Match(subject, false) as for "m","ng1","m1":Match(subject, true),"tag":""}
+//        from ONE long-lived, recycled SegmentedStringMatcher; "ru":1 iff a brand-new object answers the same.
 //   wc one <pattern> [subject ...]      prints the answers for one pattern (debugging aid)
 #include "regex/StringMatcher.h"
+#include "regex/SegmentedStringMatcher.h"
 #include "system/SetupSystem.h"
 #include "mjson.h"
 #include <set>
@@ -123,7 +132,7 @@ static void OneLine(const std::string & p, const char * tag, const std::vector<s
    }
    const bool ng = no.size() < yes.size();
    const std::vector<int> & m = ng ? no : yes;
-   o.clear(); o += '{'; Bytes(o, "p", p);
+   o.clear(); o += "{\"k\":\"p\","; Bytes(o, "p", p);
    snprintf(b, sizeof(b), ",\"st\":%d,\"ng\":%d,\"m\":[", ok ? 1 : 0, ng ? 1 : 0); o += b;
    for (size_t i=0; i<m.size(); i++) {snprintf(b, sizeof(b), i ? ",%d" : "%d", m[i]); o += b;}
    const bool u = sm.IsPatternUnique(), v = sm.IsPatternListOfUniqueValues();
@@ -210,6 +219,103 @@ static int Enum(int argc, char ** argv)
    return 0;
 }
 
+static void Seqs(const std::vector<std::string> & toks, int minN, int maxN, std::vector<std::vector<std::string> > & out)
+{
+   std::vector<std::vector<std::string> > cur(1);
+   if (minN == 0) out.push_back(cur[0]);
+   for (int n=1; n<=maxN; n++) {
+      std::vector<std::vector<std::string> > nxt;
+      for (size_t i=0; i<cur.size(); i++) for (size_t t=0; t<toks.size(); t++) {nxt.push_back(cur[i]); nxt.back().push_back(toks[t]);}
+      cur.swap(nxt);
+      if (n >= minN) out.insert(out.end(), cur.begin(), cur.end());
+   }
+}
+static std::string JoinSeg(const std::vector<std::string> & v, size_t doubledAt = (size_t) -1)
+{
+   std::string s; for (size_t i=0; i<v.size(); i++) {if (i) s += (i == doubledAt) ? "//" : "/"; s += v[i];} return s;
+}
+static void AddUnique(std::vector<std::string> & v, std::set<std::string> & seen, const std::string & s) {if (seen.insert(s).second) v.push_back(s);}
+
+static void MatchList(std::string & o, const char * ngKey, const char * mKey, const std::vector<bool> & ans)
+{
+   char b[48]; size_t yes = 0; for (size_t i=0; i<ans.size(); i++) if (ans[i]) yes++;
+   const bool ng = (ans.size() - yes) < yes;
+   snprintf(b, sizeof(b), ",\"%s\":%d,\"%s\":[", ngKey, ng ? 1 : 0, mKey); o += b;
+   bool first = true;
+   for (size_t i=0; i<ans.size(); i++) if (ans[i] != ng) {snprintf(b, sizeof(b), first ? "%d" : ",%d", (int) i + 1); o += b; first = false;}
+   o += ']';
+}
+
+static int Seg(int argc, char ** argv)
+{
+   if (argc < 6) return 2;
+   const int level = atoi(argv[2]), nsh = atoi(argv[3]); const std::string prefix = argv[4];
+   if ((nsh < 1)||(nsh > 64)) return 2;
+   static const char * C1[] = {"*", "a", "b", "a*", "?", "[ab]", "a,b", "<1-2>", "\\*"};
+   static const char * C2[] = {"1", "ab", "(a|b)", "?*", "~a", "a?", "[^a]"};
+   static const char * T1[] = {"a", "b", "1", "ab"};
+   std::vector<std::string> clauses(C1, C1 + 9), toks(T1, T1 + 4), toks4(T1, T1 + 3);
+   if (level >= 2) {clauses.insert(clauses.end(), C2, C2 + 7); toks.push_back("2"); toks4 = toks;}
+
+   std::vector<std::string> pats, subj; std::set<std::string> seenP, seenS;
+   {
+      std::vector<std::vector<std::string> > sq; Seqs(clauses, 1, 3, sq);
+      for (size_t i=0; i<sq.size(); i++) {
+         const std::string p = JoinSeg(sq[i]);
+         AddUnique(pats, seenP, p); AddUnique(pats, seenP, "~" + p);
+         if (sq[i].size() <= 2) {AddUnique(pats, seenP, "/" + p); AddUnique(pats, seenP, p + "/"); if (sq[i].size() == 2) AddUnique(pats, seenP, JoinSeg(sq[i], 1));}
+      }
+      AddUnique(pats, seenP, ""); AddUnique(pats, seenP, "~"); AddUnique(pats, seenP, "/");
+   }
+   {
+      std::vector<std::vector<std::string> > sq; Seqs(toks, 0, 3, sq); Seqs(toks4, 4, 4, sq);
+      for (size_t i=0; i<sq.size(); i++) AddUnique(subj, seenS, JoinSeg(sq[i]));
+      std::vector<std::string> ab; ab.push_back("a"); ab.push_back("b");
+      std::vector<std::vector<std::string> > v; Seqs(ab, 0, 3, v);
+      for (size_t i=0; i<v.size(); i++) {
+         const std::string s = JoinSeg(v[i]);
+         AddUnique(subj, seenS, "/" + s); AddUnique(subj, seenS, s + "/");
+         for (size_t d=1; d<v[i].size(); d++) AddUnique(subj, seenS, JoinSeg(v[i], d));
+      }
+      AddUnique(subj, seenS, "*"); AddUnique(subj, seenS, "a/*"); AddUnique(subj, seenS, "*/a"); AddUnique(subj, seenS, "12/a"); AddUnique(subj, seenS, "a/2");
+   }
+   FILE * f = fopen((prefix + ".seg.hdr.json").c_str(), "w"); if (!f) {perror("fopen"); return 2;}
+   std::vector<FILE *> fs(nsh);
+   for (int k=0; k<nsh; k++) {char b[32]; snprintf(b, sizeof(b), ".seg.%d.ndjson", k); fs[k] = fopen((prefix + b).c_str(), "w"); if (!fs[k]) {perror("fopen"); return 2;}}
+   std::string o = "{\"subjects\":[],\"segsubjects\":[";
+   for (size_t k=0; k<subj.size(); k++) {if (k) o += ','; std::string t; Bytes(t, "x", subj[k]); o += t.substr(4);}
+   o += "]}\n"; fputs(o.c_str(), f); fclose(f);
+
+   SegmentedStringMatcher * reused = new SegmentedStringMatcher;
+   uint64_t lines = 0, calls = 0, matched = 0, errors = 0, unique = 0;
+   for (size_t i=0; i<pats.size(); i++) for (int hard=0; hard<2; hard++) {
+      const char * sep = hard ? "//" : "/";
+      const bool ok = reused->SetPattern(String(pats[i].c_str()), true, sep).IsOK();
+      SegmentedStringMatcher fresh; const bool fok = fresh.SetPattern(String(pats[i].c_str()), true, sep).IsOK();
+      bool ru = (ok == fok)&&(fresh.IsPatternUnique() == reused->IsPatternUnique());
+      std::vector<bool> a0(subj.size()), a1(subj.size());
+      for (size_t k=0; k<subj.size(); k++) {
+         a0[k] = reused->Match(subj[k].c_str(), false); a1[k] = reused->Match(subj[k].c_str(), true);
+         if ((fresh.Match(subj[k].c_str(), false) != a0[k])||(fresh.Match(subj[k].c_str(), true) != a1[k])) ru = false;
+         calls += 2; if (a0[k]) matched++; if (a1[k]) matched++;
+      }
+      char b[96];
+      o = "{\"k\":\"s\","; Bytes(o, "p", pats[i]);
+      snprintf(b, sizeof(b), ",\"hard\":%d,\"st\":%d,\"u\":%d,\"ru\":%d", hard, ok ? 1 : 0, reused->IsPatternUnique() ? 1 : 0, ru ? 1 : 0); o += b;
+      MatchList(o, "ng0", "m0", a0); MatchList(o, "ng1", "m1", a1);
+      o += ",\"tag\":\"\"}\n"; fputs(o.c_str(), fs[lines % nsh]);
+      lines++; if (!ok) errors++; if (reused->IsPatternUnique()) unique++;
+   }
+   for (int k=0; k<nsh; k++) fclose(fs[k]);
+   delete reused;
+   FILE * rep = fopen(argv[5], "w"); if (!rep) {perror("report"); return 2;}
+   mj::Value s = mj::Value::Obj();
+   s.set("summary", mj::Value::Bool(true)).set("seg_lines", mj::Value::Int((int64_t) lines)).set("seg_patterns", mj::Value::Int((int64_t) pats.size())).set("seg_subjects", mj::Value::Int((int64_t) subj.size()))
+    .set("seg_match_calls", mj::Value::Int((int64_t) calls)).set("seg_matched", mj::Value::Int((int64_t) matched)).set("seg_setpattern_errors", mj::Value::Int((int64_t) errors)).set("seg_unique", mj::Value::Int((int64_t) unique));
+   fprintf(rep, "%s\n", mj::ToString(s).c_str()); fclose(rep);
+   return 0;
+}
+
 static int One(int argc, char ** argv)
 {
    if (argc < 3) return 2;
@@ -227,6 +333,7 @@ int main(int argc, char ** argv)
 {
    CompleteSetupSystem css;
    if ((argc >= 2)&&(!strcmp(argv[1], "enum"))) return Enum(argc, argv);
+   if ((argc >= 2)&&(!strcmp(argv[1], "seg")))  return Seg(argc, argv);
    if ((argc >= 2)&&(!strcmp(argv[1], "one")))  return One(argc, argv);
    fprintf(stderr, "usage: wc enum ... | wc one <pattern> [subjects]\n");
    return 2;
